@@ -61,7 +61,7 @@ CLAIMED = {
              "independence, conversions on a small numeric domain) and CowVariantImpl.tla (inline scalar / shared null / "
              "ref-counted heap blocks, clone-on-mutable-access, release by type; invariants ref = holders, no use after release, "
              "refinement); every edge of that state graph and seeded random histories run on three real Variants under ASan and "
-             "every step (value trees, getType, 7 conversions, 3x3 equality matrix) is validated by TLC against VariantValues.",
+             "every step (value trees, getType, 7 conversions, 3x3 equality matrix) is validated by TLC against VariantValues. One recorded finding (KNOWN_FINDINGS.jsonl, key Variant.heldapp: a mutable accessor's result kept across a copy) is exercised and reported as KNOWN-FINDING.",
         ref="5/C07", technique="TLA+ refinement model checking (TLC) + state-graph replay + TLC trace validation",
         note="Numbers limited to |n| <= 2^31-1 and halves; 64-bit extremes / double->text only smoke-tested (not claimed); cross-type equality and non-canonical numerals left open in Layer 1."),
     "C17": dict(
@@ -71,7 +71,7 @@ CLAIMED = {
              "Sha256.cpp with abstract block sizes and TLC checks the prefix/padding invariants and 'every finalize = "
              "Blocks(Pad(message))' (chunking independence, reuse). The driver hashes every message length 0..130 (thorough 0..320) "
              "under all two-way and sampled three-way chunkings with one reused hasher and HMACs over key lengths across the block "
-             "size; TLC recomputes each reference digest and compares every logged digest. Messages of 2^29..2^61 bytes (padding and 64-bit "
+             "size (also in place, the result array inside the message buffer); TLC recomputes each reference digest and compares every logged digest. Messages of 2^29..2^61 bytes (padding and 64-bit "
              "length field) are covered by HashFrom(S, count, tail): the byte counter is injected into a fresh hasher (quick) or reached by "
              "really hashing 512 MiB / 4 GiB (thorough) and TLC continues from the logged chaining value.",
         ref="5/C17", technique="executable TLA+ specification evaluated by TLC + trace validation of real digests; TLC model of the streaming state machine",
@@ -111,7 +111,7 @@ CLAIMED = {
              "the tokenizer/parser of Json.cpp: cursor inside the text, no overrun, termination, error position inside the text); "
              "every strip input, every enumerated tree (real toString then real parse), one shortest input per acceptor transition, "
              "depth-1000 nestings and seeded random/truncated/mutated texts run on the real code from exact-size heap copies under "
-             "ASan with a watchdog; TLC validates every logged outcome against the Layer-1 trace specs.",
+             "ASan with a watchdog (one parser object and one result Variant per execution, every third round trip with the text owned by the result); TLC validates every logged outcome against the Layer-1 trace specs.",
         ref="5/C15", technique="TLA+ model checking (TLC) + transition-covering input generation + TLC trace validation; ASan for the bounds clause",
         note="Which texts are accepted is Layer 2 only (drift); doubles/unsigned not in the round trip; alphabets of 8-13 symbols exhaustively, arbitrary bytes only sampled."),
     "C16": dict(
@@ -120,7 +120,7 @@ CLAIMED = {
              "with its rewind, entity unescape; invariants cursor inside, progress per content-loop pass, termination, error "
              "position inside the text); every enumerated tree (real toString then parse, also re-rendered with comments/PIs/"
              "entities), one shortest input per acceptor transition, depth-1000 nestings, random texts and every edge of the "
-             "XmlValue graph run on the real code under ASan/UBSan with a watchdog; TLC validates every logged outcome.",
+             "XmlValue graph run on the real code under ASan/UBSan with a watchdog (one parser and one target element per execution, texts that do not start with a token, text owned by the target); TLC validates every logged outcome.",
         ref="5/C16", technique="TLA+ model checking (TLC) + transition-covering input generation + state-graph replay + TLC trace validation",
         note="Accepted language is Layer 2 only; a comment directly after a name without white space is not demanded; 7-12 symbol alphabets exhaustively."),
     "C09": dict(
@@ -173,11 +173,11 @@ CLAIMED = {
     "C03": dict(
         text="TLC model-checks RefSeq.tla (reference sequence with designated ids for returned iterators; sort = ascending "
              "permutation), ArrayImpl.tla (block, capacity rule, shifting removal, copy/assign) and ListSortImpl.tla (the in-place "
-             "quicksort statement by statement: postcondition, scan pointer bounds, progress) for ALL value sequences of length <= "
-             "6/7 over 3-4 values; every Array graph edge, the real List::sort on all sequences of length <= 6/8 over {1,2,3,4} and "
-             "random histories over List, Array and PoolList are validated by TLC against RefSeq.",
+             "quicksort statement by statement: postcondition, scan pointer bounds, progress, recursion depth <= log2 n + 1) for ALL value sequences of length <= "
+             "6/7 over 3-4 values; every Array graph edge, the real List::sort on all sequences of length <= 6/8 over {1,2,3,4}, on monotone and saw-tooth lists of 12000-100000 items in a thread with a 256 KiB stack, and "
+             "random histories over List, Array and PoolList (incl. the container itself, its own elements and ranges of them as arguments; pools of 1-, 4- and 5-byte elements) are validated by TLC against RefSeq.",
         ref="5/C03", technique="TLA+ refinement model checking (TLC) + state-graph replay + exhaustive sort inputs + TLC trace validation",
-        note="Array::capacity() not judged (statement silent); PoolList::front/back do not compile when instantiated and are not called."),
+        note="Array::capacity() not judged (statement silent); PoolList::front/back do not compile when instantiated and are not called; List::sort's quadratic time on monotone input is not judged (no complexity clause)."),
     "C06": dict(
         text="TLC model-checks ByteStrings.tla (String variables as byte-sequence values over literal / attached source buffers that "
              "must never change; 44 operation kinds incl. self-arguments and the length-limited / case-insensitive comparisons; independence and algebraic sanity) and CowStringImpl.tla "
